@@ -342,7 +342,8 @@ def judge_options(values, want, signals, structs, sname, unroll):
         elif carried.get("endianess") == "little":
             carried.pop("endianess")      # "little" is the default: carrying it says nothing
         sources = [blocks[n] for n in [origin] + [n for n in reversed(path[:-1])] if n in blocks]
-        derived = [b for n, b in blocks.items() if n.startswith(origin + "_") and n[len(origin) + 1:].isdigit()] if is_array_leaf else []
+        # names an unrolled element may be looked up by: <field>_<i> for the leaf's own field and for every array field above it
+        derived = [b for n, b in blocks.items() if any(n.startswith(q + "_") and n[len(q) + 1:].isdigit() for q in path)] if is_array_leaf else []
         for k, x in carried.items():
             if not any(k in b and b[k] == x for b in sources + derived):
                 where = f"for {origin}" + (f" or the fields above it {path[:-1]}" if len(path) > 1 else "")
